@@ -23,6 +23,8 @@ type setSubj[T comparable] struct {
 	s        sets.Set[T]
 	m        []T // members in insertion order
 	scribble bool
+	lastArgs  []T
+	argDamage string
 	calls    *int64
 	cmp      func(a, b T) int
 	loadD    []T
@@ -121,12 +123,20 @@ func (s *setSubj[T]) vals(idx []int) []T {
 			out[i] = s.d.At(k)
 		}
 	}
+	if s.scribble {
+		s.lastArgs = slices.Clone(out)
+	}
 	return out
 }
+
+func (s *setSubj[T]) ArgDamage() string { d := s.argDamage; s.argDamage = ""; return d }
 
 func (s *setSubj[T]) afterCall(vs []T) {
 	if !s.scribble {
 		return
+	}
+	if dmg := argDamage(vs, s.lastArgs, s.d.Str); dmg != "" && s.argDamage == "" {
+		s.argDamage = dmg
 	}
 	for i := range vs {
 		vs[i] = s.d.Probes[0]
@@ -193,8 +203,23 @@ func (s *setSubj[T]) ModelApply(op Op) {
 		}
 	case "Clear":
 		s.m = nil
+	case "Shrink":
+		if len(s.m) > op.A[0] {
+			s.m = slices.Clone(s.m[:op.A[0]])
+		}
 	case "Fill":
-		s.modelAdd(s.vals(fillIdx(op.A)))
+		idx := make(map[string]bool, len(s.m))
+		m := slices.Clone(s.m)
+		for _, x := range m {
+			idx[s.class(x)] = true
+		}
+		for _, x := range s.vals(fillIdx(op.A)) {
+			if c := s.class(x); !idx[c] {
+				idx[c] = true
+				m = append(m, x)
+			}
+		}
+		s.m = m
 	case "New":
 		s.m = nil
 		s.modelAdd(s.vals(op.A))
@@ -233,6 +258,10 @@ func (s *setSubj[T]) Step(op Op, o *Oracle) {
 		s.afterCall(vs)
 	case "Clear":
 		s.s.Clear()
+	case "Shrink": // one bulk Remove of all members but op.A[0] of them (taken from the model: no read of the container)
+		if len(s.m) > op.A[0] {
+			s.s.Remove(slices.Clone(s.m[op.A[0]:])...)
+		}
 	case "Fill":
 		s.s.Add(s.vals(fillIdx(op.A))...)
 	case "New":
@@ -340,7 +369,7 @@ func (s *setSubj[T]) check(o *Oracle) {
 		for it := setIter(s.s); it.Next(); {
 			itGot = append(itGot, s.d.Str(it.Value()))
 		}
-		reenter := o.cur.ID%3 == 0 // one check in three: the callback reads the set it is enumerating
+		reenter := o.cur.ID%3 == 0 && len(vals) <= 512 // one check in three: the callback reads the set it is enumerating (quadratic: small sets only)
 		setEnum(s.s).Each(func(_ int, v T) {
 			if reenter {
 				s.s.Values()
@@ -517,6 +546,13 @@ func (s *setSubj[T]) doRead(op Op, other *setSubj[T]) string {
 	d := s.d
 	switch op.N {
 	case "Contains":
+		if a[2] == 6 { // a long argument list
+			many := make([]T, 33+a[1]%16)
+			for j := range many {
+				many[j] = d.At(a[0] + j*(1+a[1]&1))
+			}
+			return strconv.FormatBool(s.s.Contains(many...))
+		}
 		return strconv.FormatBool(s.s.Contains(d.At(a[0]))) + strconv.FormatBool(s.s.Contains(d.At(a[0]), d.At(a[1])))
 	case "Size":
 		return strconv.Itoa(s.s.Size())
@@ -614,7 +650,24 @@ func (s *setSubj[T]) DoHostile(op Op) {
 			setAlgebra[T](other, s.s, n)
 			setAlgebra[T](s.s, s.s, n)
 		}
+		if f := s.foreign(vs); f != nil && a[0]%2 == 0 {
+			// a TreeSet ordered by another comparator function: a legal call (documented to return an empty set)
+			for _, n := range []string{"Intersection", "Union", "Difference"} {
+				setAlgebra[T](s.s, f, n)
+				setAlgebra[T](f, s.s, n)
+			}
+		}
 	}
+}
+
+// foreign builds a TreeSet of the given elements ordered by a comparator that is another function than the
+// subject's (TreeSet decides "same comparator" by the function's identity); nil for the other kinds.
+func (s *setSubj[T]) foreign(vs []T) sets.Set[T] {
+	if s.cfg.Kind != "treeset" {
+		return nil
+	}
+	d := s.d
+	return treeset.NewWith[T](func(a, b T) int { return d.Cmp(b, a) }, vs...)
 }
 
 func (s *setSubj[T]) EncodeModel() []byte {
